@@ -498,7 +498,25 @@ pub fn run_case(env: &Env, case: &Case, oracle: &mut Oracle, mut fill: Option<Pl
                     nontrivial = true;
                 }
                 // ---- verdict
-                let v = model::check(idx, &tree, &seen_before, &inv, &pred, &after, &out);
+                let mut v = model::check(idx, &tree, &seen_before, &inv, &pred, &after, &out);
+                if let Some((target, kind)) = &fired.livelock {
+                    // bounded progress: a persistent failure on one input must not keep the tool
+                    // busy for ever (check mode owes an exit status, a batch owes the other inputs)
+                    let (prop, id) = if inv.is_check() { ("C14", "I14.3-livelock") } else if matches!(&inv.shape, Shape::Files { mode: Mode::Inplace, .. } | Shape::FormatAll { check: false, .. }) { ("C15", "I15.3-livelock") } else { ("", "") };
+                    if !prop.is_empty() {
+                        v.insert(
+                            0,
+                            Violation {
+                                property: prop.into(),
+                                invariant: id.into(),
+                                step: idx,
+                                message: format!("the tool retried the persistently failing operation {} on {:?} 3000 times in a row without giving up: it never delivers an exit status / never gets to its other inputs", kind, target),
+                            },
+                        );
+                    } else {
+                        v.clear();
+                    }
+                }
                 let write_mode = matches!(&inv.shape, Shape::Files { mode: Mode::Inplace, .. } | Shape::FormatAll { check: false, .. });
                 prev_write_inv = if write_mode && fired.kinds.iter().all(|(k, _)| Rule::new(k, "", 0, 0).is_benign() || k.starts_with("readdir-order")) {
                     Some((inv.shape.clone(), inv.style.cfg(), inv.cwd.clone()))
